@@ -42,7 +42,11 @@ class MatrixMass(ParticleMass):
     def __init__(self, inv_mass: ndarray, n_parameters: int):
         assert inv_mass.ndim == 2
         assert inv_mass.shape[0] == inv_mass.shape[1] == n_parameters
-        assert (inv_mass == inv_mass.T).all()
+        # symmetric up to rounding (the inverse of a symmetric Hessian, as numpy.linalg.inv
+        # returns it, differs from its transpose in the last bit); the exactly symmetric
+        # part is kept
+        assert abs(inv_mass - inv_mass.T).max() <= 1e-10 * abs(inv_mass).max()
+        inv_mass = 0.5 * (inv_mass + inv_mass.T)
 
         self.inv_mass = inv_mass
         self.n_parameters = n_parameters
